@@ -171,6 +171,93 @@ def run(ctx):
         for name_, mfi in sorted(ctx.methods("HypergraphMT").items()):
             if "psi" in name_.lower():
                 check_self_shift_recurrence(ctx, res, mfi)
+    # ---- I-SCRATCH: a per-node scratch matrix (psiBarOmega: the polynomials WITHOUT node i) is written by one method and read by
+    #      another one that is called for the same node.  Where a function calls both for the loop's node, the reader is reached on
+    #      no path of the iteration that skipped the writer (the reader would use the scratch values of the previous node)
+    with res.guard("I-SCRATCH"):
+        res.rules["I-SCRATCH"] = "a per-node scratch matrix is recomputed for the node on every path of the iteration that reaches the method reading it (never left at the previous node's values on one branch)"
+        n_pairs = 0
+        for cname in ("HypergraphMT",):
+            ms = ctx.methods(cname)
+
+            def attr_uses(mfi):
+                rd, wr = set(), set()
+                for x in ast.walk(mfi.node):
+                    if isinstance(x, ast.Attribute) and isinstance(x.value, ast.Name) and x.value.id == "self":
+                        (wr if isinstance(x.ctx, ast.Store) else rd).add(x.attr)
+                    if isinstance(x, ast.Subscript) and isinstance(x.ctx, ast.Store):
+                        b = x.value
+                        while isinstance(b, ast.Subscript):
+                            b = b.value
+                        if isinstance(b, ast.Attribute) and isinstance(b.value, ast.Name) and b.value.id == "self":
+                            wr.add(b.attr)
+                return rd, wr
+
+            def recomputed(mfi, attr):
+                """every element store of self.<attr> in the method computes the element anew: no store reads the element it writes
+                (an incrementally maintained matrix - `M[d] = M[d] + delta`, `M[d] += delta` - is state, not scratch)"""
+                n_st = 0
+                for x in ast.walk(mfi.node):
+                    tg = None
+                    if isinstance(x, ast.AugAssign):
+                        tg, incr = x.target, True
+                    elif isinstance(x, ast.Assign) and len(x.targets) == 1:
+                        tg, incr = x.targets[0], False
+                    if not isinstance(tg, ast.Subscript) or f"self.{attr}" not in norm(tg):
+                        continue
+                    if isinstance(tg.slice, ast.Name) and "mask" in tg.slice.id.lower():
+                        continue  # clipping of tiny negative values
+                    n_st += 1
+                    if incr or any(norm(y) == norm(tg) for y in ast.walk(x.value)):
+                        return False
+                return n_st > 0
+
+            uses = {n_: attr_uses(m_) for n_, m_ in ms.items()}
+            per_node = {n_ for n_, m_ in ms.items() if len(m_.params) >= 2 and m_.params[1].arg == "i"}
+            # scratch attribute: written (by subscript stores) in exactly one per-node method, read by another per-node method, and
+            # written nowhere else except __init__-like whole-attribute initialisers
+            pairs = []
+            for w_ in sorted(per_node):
+                for a_ in sorted(uses[w_][1]):
+                    other_writers = [n_ for n_ in per_node if n_ != w_ and a_ in uses[n_][1]]
+                    if other_writers:
+                        continue
+                    for r_ in sorted(per_node):
+                        if r_ != w_ and a_ in uses[r_][0] and a_ not in uses[r_][1] and a_ in uses[w_][1] and not (set(uses[r_][1]) & {a_}):
+                            # the writer derives the scratch from what the reader maintains (psiBarOmega from psiOmega)
+                            if uses[r_][1] & uses[w_][0] and recomputed(ms[w_], a_):
+                                pairs.append((w_, r_, a_))
+            for w_, r_, a_ in pairs:
+                for name_, mfi in sorted(ms.items()):
+                    if name_ in (w_, r_):
+                        continue
+                    mv = ctx.view(mfi)
+
+                    def calls_of(target):
+                        return [c for c in walk_no_nested(mfi.node) if isinstance(c, ast.Call) and isinstance(c.func, ast.Attribute) and c.func.attr == target and isinstance(c.func.value, ast.Name) and c.func.value.id == "self"]
+
+                    rc, wc = calls_of(r_), calls_of(w_)
+                    if not rc:
+                        continue
+                    n_pairs += 1
+                    wids = {mv.cfg_id(c) for c in wc} - {None}
+                    for c in rc:
+                        cid = mv.cfg_id(c)
+                        lp = mv.enclosing(c, (ast.For, ast.While))
+                        if not wc or cid is None:
+                            res.unknown("I-SCRATCH", mfi.short, norm(c)[:80], f"{a_}:fresh", f"`{w_}` is not called in this function; whether self.{a_} holds the values of this node was not established", loc(mfi, c))
+                            continue
+                        if lp is not None:
+                            hid = mv.cfg_id(lp)
+                            starts = [s0 for s0 in mv.cfg.succ(hid, "iter")] if hid is not None else []
+                            if not starts and hid is not None:
+                                starts = [s0 for s0 in mv.cfg.succ(hid)]
+                            skip = any(s0 == cid or (s0 not in wids and mv.cfg.reaches_without(s0, cid, wids | {hid})) for s0 in starts)
+                        else:
+                            skip = mv.cfg.reaches_without(mv.cfg.entry, cid, wids)
+                        res.check(not skip, "I-SCRATCH", mfi.short, norm(c)[:80], f"{a_}:fresh", f"`{r_}` reads self.{a_}, the scratch matrix `{w_}` computes for ONE node; a path of the iteration reaches this call without `{w_}` having run for the node, so the correction uses the scratch values of the previous node (zeros for the first) and the symmetric polynomials drift from u - the reported log-likelihood is no longer that of (u, w)", loc(mfi, c))
+        if n_pairs == 0:
+            res.unknown("I-SCRATCH", "HypergraphMT", "writer / reader of a per-node scratch matrix", "fresh", "no writer / reader pair of a per-node scratch matrix recognised", "hypergraphx/communities/hypergraph_mt/model.py")
     with res.guard("I-ROWS"):
         stores = [n for n in walk_no_nested(ak.fi.node) if isinstance(n, ast.Assign) and isinstance(n.targets[0], ast.Subscript) and norm(n.targets[0].value) == "X_pred"]
         if not stores:
